@@ -131,9 +131,14 @@ def lit_canon(lit: dict) -> dict:
 
 
 def canon(poly: Any) -> Dict[frozenset, numpy.ndarray]:
-    names = tuple(poly.names)
-    exps = numpy.asarray(poly.exponents)
-    coefs = poly.coefficients
+    try:
+        names = tuple(poly.names)
+        exps = numpy.asarray(poly.exponents)
+        coefs = poly.coefficients
+    except core.SimInterrupt:
+        raise
+    except Exception as exc:  # an object whose own accessors raise is not a well-formed polynomial
+        raise core.Violation("wellformed", "accessors", f"reading names/exponents/coefficients raised {type(exc).__name__}: {exc}") from exc
     out: Dict[frozenset, numpy.ndarray] = {}
     if not len(coefs):
         return out
@@ -277,7 +282,7 @@ def gen_coeff_values(ch: core.Chooser, n: int, kind: str) -> list:
         elif kind == "posint":
             out.append(ch.choice([0, 1, 1, 2, 3]))
         elif kind == "float":
-            out.append(ch.choice([-2.5, -1.0, -0.75, -0.25, 0.0, 0.0, 0.25, 1.0, 1.5, 1e-05, 3.0, 1.0 / 3]))
+            out.append(ch.choice([-2.5, -1.0, -0.75, -0.25, 0.0, 0.0, -0.0, 0.25, 1.0, 1.5, 1e-05, 3.0, 1.0 / 3]))
         elif kind == "complex":
             out.append(complex(ch.choice([-2, -1, 0, 0, 1, 1.5]), ch.choice([-1, 0, 0, 1, 2.5])))
         elif kind == "bool":
